@@ -399,11 +399,32 @@ class Interp(object):
         val.run_validation()
         return {"issues": first, "again": self._issues(val.errors), "rerun": first}
 
-    def op_validate_custom(self, x, klass="section", report=False):
+    def op_validate_custom(self, x, klass="section", report=False, raising=False):
         from odml.validation import Validation, ValidationError, IssueID
 
         def marker(obj):
             yield ValidationError(obj, "simkit-marker", "warning", IssueID.custom_validation)
+
+        if raising:
+            # a rule of the caller that cannot deal with some objects (it raises for every second
+            # object it meets): whatever the instance does with that, it does it again when it
+            # is run again on the same unchanged objects
+            def picky(obj):
+                if len(getattr(obj, "name", "") or "") % 2 == 0:
+                    raise RuntimeError("simkit: rule cannot deal with %r" % getattr(obj, "name", None))
+                yield ValidationError(obj, "simkit-marker", "warning", IssueID.custom_validation)
+            val = Validation(x, validate=False, reset=True)
+            val.register_custom_handler(klass, picky)
+            val.register_custom_handler(klass, marker)
+            runs = []
+            for _ in range(2):
+                try:
+                    val.run_validation()
+                    runs.append(["ret", self._issues(val.errors)])
+                except Exception as exc:
+                    runs.append(["exc", type(exc).__name__])
+            return {"issues": runs[0], "again": runs[1], "rerun": runs[0], "empty_at_start": True,
+                    "raising": True}
         # a reset instance must start without any rule: running it reports nothing
         blank = Validation(x, validate=False, reset=True)
         blank.run_validation()
